@@ -155,8 +155,8 @@ func randFamilyOn(backend string) bool {
 		return true
 	}
 	switch backend {
-	case "":
-		return false
+	case "spv", "hlsl", "glsl":
+		return true // clean on the unchanged tree for seeds 1-3 after triage (DESIGN.md 13.4, 13.5)
 	}
 	return false
 }
